@@ -15,6 +15,7 @@ import OpenHTF.Driver.C15
 import OpenHTF.Driver.C18
 import OpenHTF.Driver.C12
 import OpenHTF.Driver.C04
+import OpenHTF.Driver.C14
 open OpenHTF.Driver
 
 def stripNl (s : String) : String :=
@@ -39,6 +40,7 @@ def dispatch (line : String) : String :=
   | "C18" :: ts => C18.handle ts
   | "C12" :: ts => C12.handle ts
   | "C04" :: ts => C04.handle ts
+  | "C14" :: ts => C14.handle ts
   | "C03" :: ts => C02.handleC03 ts
   | _ => reply false false "unknown-property"
 
